@@ -8,7 +8,7 @@ import solvercase
 from gen import hard, problems
 
 RULE = ("correspondence: (i) optimize() on a coding region (1-8 codons, strand +1/-1, inside a longer sequence, "
-        "Standard / Bacterial genetic table) protected by EnforceTranslation with MaximizeCAI, CodonOptimize("
+        "Standard / Bacterial genetic table, optionally with the start codon kept) protected by EnforceTranslation with MaximizeCAI, CodonOptimize("
         "use_best_codon) or HarmonizeRCA over arbitrary user codon-usage tables (ties and zero frequencies included), "
         "recorded and replayed by the Lean solver model; (ii) evaluate() of the initialised objective on the start and "
         "final sequences vs the model's evaluation (score and flagged codons), with regions whose only sub-optimal "
@@ -71,7 +71,7 @@ def rand_case(rng):
         if other == "rca":
             first["orig_table_seed"] = rng.choice([seed, oseed])
     desc = dict(sequence=seq, constraints=[dict(kind="cds", location=loc, table=rng.choice(["Standard", "Bacterial"]),
-                                                start_codon=None, translation=None)],
+                                                start_codon=None if rng.random() < 0.75 else "keep", translation=None)],
                 objectives=[obj], settings={},   # default solver settings: the property does not quantify over degraded searches
                 np_seed=rng.randint(0, 10 ** 6), protein=protein, targeted=targeted)
     if first is not None:
@@ -108,8 +108,14 @@ def check_result(desc, final, out, inp, score=None):
         return bad
     o = desc["objectives"][0]
     table = hard.user_table(random.Random(o["table_seed"]))
+    kept = desc["constraints"][0].get("start_codon") == "keep"
+    if kept and c1[0] != c0[0]:
+        bad.append(("kept-start-codon-changed", "%s -> %s" % (c0[0], c1[0])))
+        return bad
     if o["kind"] in ("cai", "codon_optimize"):
         for i, c in enumerate(c1):
+            if kept and i == 0:
+                continue        # frozen by the start-codon policy: the best achievable there is the codon itself
             fr = table[aa_of[c]]
             if fr[c] < max(fr.values()):
                 bad.append(("codon-not-most-frequent", "codon %d: %s (%.3f) while %s" % (i, c, fr[c], fr)))
@@ -120,6 +126,8 @@ def check_result(desc, final, out, inp, score=None):
         def rca(t, c):
             return t[aa_of[c]][c] / max(t[aa_of[c]].values())
         for i, (c, orig) in enumerate(zip(c1, c0)):
+            if kept and i == 0:
+                continue
             ro = rca(otable, orig)
             ds = {s: abs(rca(table, s) - ro) for s in back[aa_of[c]]}
             if ds[c] > min(ds.values()) + 1e-12:
@@ -142,7 +150,8 @@ def oracle(results, out):
         # the reported score is the declared best for CAI (0), and re-optimizing changes nothing
         o = p.objectives[0]
         ev = o.evaluate(p)
-        if case["desc"]["objectives"][0]["kind"] != "rca" and abs(float(ev.score)) > 1e-9:
+        if case["desc"]["objectives"][0]["kind"] != "rca" and case["desc"]["constraints"][0].get("start_codon") != "keep" \
+                and abs(float(ev.score)) > 1e-9:
             out.append(dict(kind="score-not-best", input=inp, detail="score %r on %s" % (float(ev.score), p.sequence)))
     return n
 
